@@ -4,7 +4,8 @@ For every File_* function of src/File.c: which stdio functions it calls (in text
 test `if (f->file is NULL) { throw(IOError, …` precedes the first of them; the two facts fix b3448e7 established about
 File_Close (guarded; the handle is dropped before the result of fclose is tested); that File_Open and File_Del close a
 held handle first; the argument counts File_Read / File_Write pass to fread / fwrite; the class instances of `File`
-(which function is sclose, stop, destruct …); `with_in`, `start_in`, `stop_in`.
+(which function is sclose, stop, destruct …); `with_in` (also clause by clause: which expression the init clause hands
+to start_in and the step clause to stop_in), `start_in`, `stop_in`.
 """
 import re
 from ctext import *
@@ -95,6 +96,15 @@ def gen_file(repo):
     mw = re.search(r'#define\s+with_in\(X,\s*S\)\s+(.*)', hdr)
     if not mw: raise ExtractError('with_in macro not found')
     with_macro = re.sub(r'\s+', ' ', mw.group(1)).strip()
+    # the three clauses of the for loop `with_in(X, S)` expands to: which expression start_in / stop_in receive
+    mf = re.fullmatch(r'for\s*\((.*);(.*);(.*)\)', with_macro)
+    if not mf: raise ExtractError(f'with_in is not a single for(…;…;…) header: {with_macro}')
+    w_init, w_cond, w_step = (x.strip() for x in mf.groups())
+    mi = re.fullmatch(r'var\s+X\s*=\s*start_in\s*\((.*)\)', w_init)
+    ms = re.fullmatch(r'X\s*=\s*stop_in\s*\((.*)\)', w_step)
+    w_init_arg = mi.group(1).strip() if mi else ''
+    w_step_arg = ms.group(1).strip() if ms else ''
+    w_cond_ok = bool(re.fullmatch(r'X\s+isnt\s+NULL|X\s*!=\s*NULL', w_cond))
     st = read(f'{repo}/src/Start.c')
     bsi, bso = func_body(st, 'start_in'), func_body(st, 'stop_in')
     norm = lambda s: re.sub(r'\s+', ' ', s).strip()
@@ -144,6 +154,13 @@ def instFormat : List String := {lean_list([lean_str(x) for x in inst['Format']]
 
 /-- `with_in`, `start_in`, `stop_in` (whitespace-normalised) -/
 def withMacro : String := {lean_str(with_macro)}
+/-- the for loop's clauses: init `var X = start_in(<withInitArg>)` ("" = another shape), condition `X isnt NULL`,
+    step `X = stop_in(<withStepArg>)` ("" = another shape) -/
+def withInitArg : String := {lean_str(w_init_arg)}
+def withCondNotNull : Bool := {b(w_cond_ok)}
+def withStepArg : String := {lean_str(w_step_arg)}
+/-- the step clause stops the loop variable `X` (the object start_in returned), not the macro argument `S` again -/
+def withStopsBound : Bool := {b(w_step_arg == 'X')}
 def startIn : String := {lean_str(norm(bsi))}
 def stopIn : String := {lean_str(norm(bso))}
 
